@@ -166,7 +166,35 @@ class proceed:
         """
         if not self.suspended:
             self.suspended = True
-            HandlerCollection.current.set(self.outer)
+            self._give_back()
+
+    def _give_back(self):
+        """Hand the caller its collection back.
+
+        A probe or an overlay may have been activated or deactivated while
+        this call was running: the call's own collection was changed, and
+        that change is carried over to the caller's collection, otherwise it
+        would be undone the moment the call returns.
+        """
+        now = HandlerCollection.current.get()
+        outer = self.outer
+        if now is not self.inner and now is not None:
+
+            def key(pair):
+                return (id(pair[0]), id(pair[1]))
+
+            before = {key(p) for p in self.inner.handler_pairs}
+            after = {key(p) for p in now.handler_pairs}
+            pairs = [
+                p
+                for p in (outer.handler_pairs if outer else [])
+                if key(p) not in before or key(p) in after
+            ]
+            pairs += [p for p in now.handler_pairs if key(p) not in before]
+            outer = HandlerCollection(pairs)
+            # What this call carries from now on (a generator may be resumed)
+            self.inner = now
+        HandlerCollection.current.set(outer)
 
     def resume(self):
         """The generator is running again, possibly for a different caller."""
@@ -177,7 +205,7 @@ class proceed:
 
     def __exit__(self, typ, exc, tb):
         if not self.suspended:
-            HandlerCollection.current.set(self.outer)
+            self._give_back()
         self.interactor.exit()
 
 
